@@ -9,7 +9,9 @@ use serde_json::{json, Value as Json};
 pub mod c07;
 pub mod c11;
 pub mod c02;
+pub mod bfs;
 pub mod c03;
+pub mod c06;
 pub mod c08;
 pub mod c09;
 pub mod c10;
@@ -20,8 +22,10 @@ pub mod c15;
 pub mod c16;
 pub mod c17;
 pub mod c18;
+pub mod c19;
 pub mod c20;
 pub mod crypto;
+pub mod msgbuild;
 
 #[derive(Clone, Copy, Debug, PartialEq, Eq, PartialOrd, Ord)]
 pub enum Scale {
@@ -248,6 +252,7 @@ pub fn run(rep: &Report) -> Option<u64> {
         "C03" => Some(c03::run_c03(rep)),
         "C04" => Some(c03::run_c04(rep)),
         "C05" => Some(c03::run_c05(rep)),
+        "C06" => Some(c06::run(rep)),
         "C07" => Some(c07::run(rep)),
         "C08" => Some(c08::run(rep)),
         "C09" => Some(c09::run(rep)),
@@ -260,6 +265,7 @@ pub fn run(rep: &Report) -> Option<u64> {
         "C16" => Some(c16::run(rep)),
         "C17" => Some(c17::run(rep)),
         "C18" => Some(c18::run(rep)),
+        "C19" => Some(c19::run(rep)),
         "C20" => Some(c20::run(rep)),
         _ => None,
     }
